@@ -126,17 +126,19 @@ Print Assumptions xml_eof_at_end.
 
 (* C11 well-formed documents.  [item] / [doc_ok] (Xml/WellFormed.v) is an inductive grammar of the XML 1.0
    subset of the property: processing instructions and the prolog with pseudo-attributes, DOCTYPE with
-   external id and internal subset (plain bytes, double- and single-quoted literals that may contain
-   '>' '[' ']' and the other quote, bracketed subsets whose content may contain '>' and such literals), comments (any body without the three bytes - - >), CDATA sections
-   (any body without the three bytes ] ] >), start / empty-element / end tags with names, whitespace variations and
-   single- or double-quoted attribute values (any bytes but the quote and NUL, the other quote and
-   '>' '/>' '?>' included), maximal character data.  For every such document the lexer returns exactly
-   one token per construct, with the prescribed type, the construct's bytes, Text() = name / content
-   and AttrVal() = the quoted value with TAB/LF/CR read as space, and then io.EOF.
-   PARTIAL: not covered by the grammar, because the code does not treat them as XML 1.0 does (see the
-   refuted clause below and KNOWN_FINDINGS): comments and PIs inside the internal subset containing ']'
-   or an unbalanced quote, and PI content that is not a
-   list of pseudo-attributes.  Agreement with encoding/xml is checked by search only. *)
+   external id and internal subset (plain bytes; double- and single-quoted literals that may contain
+   '>' '[' ']' and the other quote; bracketed subsets whose content may contain '>', such literals,
+   declarations, comments with any body free of the three bytes - - > and processing instructions with
+   any body free of ? >, so brackets, quotes and '>' inside them are covered), comments, CDATA sections
+   (any body without the three bytes ] ] >), start / empty-element / end tags with names, whitespace
+   variations and single- or double-quoted attribute values (any bytes but the quote and NUL, the other
+   quote and '>' '/>' '?>' included), maximal character data.  For every such document the lexer returns
+   exactly one token per construct, with the prescribed type, the construct's bytes (the DOCTYPE token
+   is exactly the declaration), Text() = name / content and AttrVal() = the quoted value with TAB/LF/CR
+   read as space, and then io.EOF.
+   PARTIAL: the grammar's processing instructions outside a DOCTYPE have pseudo-attribute content only,
+   because the code lexes PI content like a start tag (refuted clause below, KNOWN_FINDINGS); CR LF in an
+   attribute value becomes two spaces; agreement with encoding/xml is checked by search only. *)
 Theorem xml_wellformed_tokens_partial :
   forall items, doc_ok items -> lexes (xml_init (render_doc items)) (expect_doc items) 1.
 Proof. exact xml_wellformed_tokens_proof. Qed.
